@@ -312,3 +312,44 @@ Proof.
   - split; [exists 9; vm_compute; reflexivity |]. split; [exists 9; vm_compute; reflexivity |].
     split; [vm_compute; reflexivity |]. split; [vm_compute; reflexivity |]. discriminate.
 Qed.
+
+(* ================================================================== fitted state vs caller arrays
+   The analyser of sub-claim (a) also bounds what the fitted state may ALIAS: after any history of
+   the object, an attribute outside the computed set [ta (analyse p)] holds no reference to a
+   caller-owned cell -- later writes of the caller to his own arrays cannot change it.  The set is
+   printed for every class by the generated case file ([unit_tainted]) and cross-validated by the
+   dynamic "caller overwrites his arrays after fit" runs. *)
+Theorem C09_untainted_attr_not_caller :
+  forall p s0 s1 a l c,
+    closed_ok p = true -> init_ok p s0 -> run (ctx p ++ body p) s0 s1 ->
+    PS.mem a (ta (analyse p)) = false ->
+    ats s1 a = Some l -> nth_error (heap s1) l = Some c -> own c <> Caller.
+Proof. exact untainted_attr_not_caller. Qed.
+Print Assumptions C09_untainted_attr_not_caller.
+
+(* the printed list is exactly the computed set *)
+Theorem C09_tainted_attrs_spec :
+  forall p a, In a (tainted_attrs p) <-> PS.mem a (ta (analyse p)) = true.
+Proof. exact tainted_attrs_spec. Qed.
+Print Assumptions C09_tainted_attrs_spec.
+
+(* non-vacuity: fit stores a validated copy-or-same of X in attribute 1 (tainted: it may alias
+   X, and an execution exists in which it does) and a fresh array in attribute 2 (not tainted) *)
+Example C09_nonvacuous_alias :
+  let p := mkProg [1%positive] [] [MayAlias 2 1; StoreAttr 1 2; Fresh 3; StoreAttr 2 3] [] in
+  let s0 := mkState (fun x => if Pos.eqb x 1 then Some 0 else None) (fun _ => None)
+                    [mkCell Caller 5] (fun _ => 0) in
+  unit_tainted [1%positive] [[MayAlias 2 1; StoreAttr 1 2; Fresh 3; StoreAttr 2 3]] = [1; 1] /\
+  closed_ok p = true /\ PS.mem 2%positive (ta (analyse p)) = false /\
+  exists s1, run (ctx p ++ body p) s0 s1 /\ ats s1 1%positive = Some 0 /\ ats s1 2%positive = Some 1.
+Proof.
+  cbv zeta. split; [vm_compute; reflexivity |]. split; [vm_compute; reflexivity |].
+  split; [vm_compute; reflexivity |].
+  eexists. split.
+  - eapply run_cons; [cbn; left; reflexivity | apply step_may_same |].
+    eapply run_cons; [cbn; right; left; reflexivity | apply step_store |].
+    eapply run_cons; [cbn; right; right; left; reflexivity | apply step_fresh with (v := 0) |].
+    eapply run_cons; [cbn; right; right; right; left; reflexivity | apply step_store |].
+    apply run_nil.
+  - split; reflexivity.
+Qed.
